@@ -11,6 +11,7 @@ import FlexModel.Sec.Lemmas
 import FlexModel.Sec.Groups
 import FlexModel.Sec.SignSpec
 import Generated.Sec
+import Generated.SecRx
 
 namespace Props.C05
 open FlexModel.Sec FlexModel.Sec.Store
@@ -336,6 +337,44 @@ theorem cam_interval_agrees :
     (∀ S : Station, ∀ t now,
       S.wantsCert t now = (decide (now - S.lastFor t > Generated.Sec.camCertIntervalMs) || S.asked t)) := by
   refine ⟨by decide, by decide, by decide, fun S t now => rfl⟩
+
+/-! ## Round 4: the validity window in the units of the standard, ITS-AID entries with SSPs -/
+
+/-- the IEEE 1609.2 Duration units in microseconds (a year is 31 556 952 s = 365.2425 days, sixtyHours = 216 000 s) -/
+def standardUnitUs : List (String × Nat) :=
+  [("microseconds", 1), ("milliseconds", 1000), ("seconds", 1000000), ("minutes", 60 * 1000000),
+   ("hours", 3600 * 1000000), ("sixtyHours", 216000 * 1000000), ("years", 31556952 * 1000000)]
+
+/-- the receiver's validity test accepts the WHOLE period of the standard: for a ticket whose duration is `n` units and
+    whose length in microseconds is computed with the REGENERATED table of verify_service.py
+    (`Generated.Sec.durationUs`, what `_generation_time_within_validity` multiplies with), every generation time from
+    `start` up to and including `start + n · unit` (standard units) is within validity – so `HonestMsg.time` of the
+    acceptance theorems holds for every message an honest holder signs while its ticket is valid, up to the last
+    microsecond.  A table entry that is too small (e.g. a 365-day year) re-opens this proof. -/
+theorem validity_window_in_standard_units (c : Cert) (unit : String) (us n : Nat)
+    (hu : (unit, us) ∈ standardUnitUs)
+    (hd : (Generated.Sec.durationUs.lookup unit).map (· * n) = some c.durUs) (t : Nat)
+    (h1 : c.start * 1000000 ≤ t) (h2 : t ≤ c.start * 1000000 + n * us) :
+    Station.withinValidity c t = true := by
+  have hdur : c.durUs = us * n := by
+    simp only [standardUnitUs, List.mem_cons, Prod.mk.injEq, List.mem_nil_iff, or_false] at hu
+    rcases hu with ⟨rfl, rfl⟩ | ⟨rfl, rfl⟩ | ⟨rfl, rfl⟩ | ⟨rfl, rfl⟩ | ⟨rfl, rfl⟩ | ⟨rfl, rfl⟩ | ⟨rfl, rfl⟩ <;>
+      · simp [Generated.Sec.durationUs, List.lookup] at hd
+        omega
+  unfold Station.withinValidity
+  have : t ≤ c.start * 1000000 + c.durUs := by rw [hdur, Nat.mul_comm us n]; exact h2
+  simp [h1, this]
+
+/-- non-vacuity: a one-year ticket, generation time 2 h before the end of the year of the standard -/
+example : Station.withinValidity { (default : Cert) with start := 100, durUs := 31556952000000 }
+    (100 * 1000000 + 31556952000000 - 7200000000) = true :=
+  validity_window_in_standard_units _ "years" (31556952 * 1000000) 1 (by decide) (by decide) _ (by decide) (by decide)
+
+/-- regenerated fact (ast pass `gen_sec_rx`): the ITS-AID guard of VerifyService compares the message's ITS-AID with
+    the PROJECTION `[entry["psid"] …]` of the ticket's appPermissions – the model's `a.c.appList.contains m.psid`, in
+    which a PsidSsp entry is its ITS-AID whether or not it carries an `ssp` component (the abstraction of
+    harness/sec_common.py drops the ssp).  Comparing whole entries (`{"psid": psid} in appPermissions`) re-opens this. -/
+theorem psid_guard_compares_projection : Generated.SecRx.psidGuardShape = ["psid-vs-projection"] := by decide
 
 /-! ## Non-vacuity and the known finding C05-KF1 (executed inside the model by `decide`) -/
 
